@@ -641,6 +641,13 @@ CMR_ERROR CMRbalancedTest(CMR* cmr, CMR_CHRMAT* matrix, bool* pisBalanced, CMR_S
     params = &localParams;
   }
 
+  if (params->algorithm == CMR_BALANCED_ALGORITHM_GRAPH)
+  {
+    /* Only the enumeration algorithm is implemented so far. */
+    CMRraiseErrorMessage(cmr, "The graph-based algorithm for balancedness is not implemented.");
+    return CMR_ERROR_INVALID;
+  }
+
   clock_t startClock = clock();
 
   if (!CMRchrmatIsTernary(cmr, matrix, psubmatrix))
